@@ -7,6 +7,7 @@ mod provider;
 mod replay;
 mod rng;
 mod run;
+mod snap;
 mod targets;
 
 use std::{
@@ -173,6 +174,7 @@ fn main() {
         "run-child" => run_child(&args),
         "explore" => plans::explore_cmd(&args),
         "replay" => replay::replay_cmd(&args),
+        "snap" => snap::snap_cmd(&args),
         _ => {
             eprintln!("usage: vh cases|run|explore|replay ...");
             std::process::exit(2);
